@@ -195,6 +195,16 @@ def check_pair(params):
     h, k = T(b, a, "h", seed, kind), T(d, c, "k", seed, kind)
     if not np.array_equal(M((f @ g) >> (h @ k)), M((f >> h) @ (g >> k))):
         bad("interchange", "(f @ g) >> (h @ k) != (f >> h) @ (g >> k)")
+    # several operands at once
+    Mh = M(h)
+    t3 = f.then(h, f)
+    if dimsof(t3.dom) != a or dimsof(t3.cod) != b or not np.array_equal(M(t3), Mf @ Mh @ Mf):
+        bad("then-nary", "f.then(h, f) is not the product of the three matrices")
+    k3 = f.tensor(g, h)
+    if dimsof(k3.dom) != a + c + b or dimsof(k3.cod) != b + d + a or not np.array_equal(M(k3), np.kron(np.kron(Mf, Mg), Mh)):
+        bad("tensor-nary", "f.tensor(g, h) is not the Kronecker product of the three matrices")
+    if not np.array_equal(M(Tensor.id(Dim(*a)).then(f, h)), Mf @ Mh) or not np.array_equal(M(Tensor.id(Dim(1)).tensor(f, g)), np.kron(Mf, Mg)):
+        bad("nary-on-identity", "Id.then(f, h) / Id().tensor(f, g) differ from f >> h / f @ g")
     return out
 
 
